@@ -108,6 +108,11 @@ StepVerdict(w, a, x) ==
              ELSE IF x.out.again.kind # "val" \/ OutFrame(x.out.again) # w.fr THEN "unstitch_restitch"
              ELSE IF rest # "" THEN "argument_changed" ELSE ""
         ELSE IF a.op = "smudge" THEN (IF rest # "" THEN "result_shared" ELSE "")      \* scribbling on a result reached the world
+        ELSE IF a.op = "set" THEN
+             \* the caller's own correction: the object written to reads as the specification says (the driver's business);
+             \* any OTHER object that changed with it shares its cells with it - a result the caller cannot scribble on
+             LET hit == IF a.tgt = "f" THEN x.w.fr = want.fr /\ x.w.fn = want.fn ELSE x.w.heap[w.ids[a.i]] = want.heap[w.ids[a.i]] IN
+             IF rest = "" THEN "" ELSE IF hit /\ x.w.ids = want.ids /\ x.w.bl = want.bl /\ Len(x.w.heap) = Len(want.heap) THEN "result_shared" ELSE "malformed_observation"
         ELSE (IF rest # "" THEN "malformed_observation" ELSE "")                       \* the caller's own edit: the driver's business
 
 =============================================================================
